@@ -16,7 +16,9 @@ class CvxLeaf(ATen):
     """cp.Variable / cp.Parameter: an expression leaf with a mutable `.value`."""
 
     def __init__(self, cx, kind_name, shape, value=None):
-        term = cx.fresh_const(kind_name, ArrS)
+        k = cx.ghost.get("cvx_leaf_n", 0)
+        cx.ghost["cvx_leaf_n"] = k + 1
+        term = U(f"{kind_name}_{k}", ArrS)  # identified by creation order within one forward call
         super().__init__(term, list(shape), F64, "cvxpy")
         self.leaf_kind = kind_name
         self._value = value  # None | ATen | V.Opt
